@@ -242,6 +242,42 @@ theorem concatenate_columns (vt : VT) (labels : List Label) (s : SS) (hwf : s.WF
     ∃ s1 : SS, (s1 = s ∨ s1 = (s.changeVartype vt 0).1) ∧ s1.WF ∧ RowsCarry labels s1.labels s1.rows labels rows' :=
   coerceTo_spec vt labels s hwf rows' h
 
+/-- `concatenate` of sample sets whose data vectors differ (`stack_arrays(defaults=…)`): the fields are the
+    union in order of first appearance; every row keeps sample (re-ordered by label as above), energy,
+    occurrences and each field its set has; exactly the missing fields hold the fill value -/
+theorem concatenate_defaults (fill : String → List Rat) (first : SS) (rest : List SS) (s' : SS)
+    (h : concatenateD fill (first :: rest) = some s') :
+    s'.labels = first.labels ∧ s'.vt = first.vt ∧ s'.fields = unionFields (first :: rest) ∧
+    ∃ blocks : List (List Row), blocks.length = rest.length ∧
+      s'.rows = first.rows.map (relayExtra (unionFields (first :: rest)) fill first) ++ blocks.flatten ∧
+      ∀ (j : Nat) (s : SS), rest[j]? = some s → ∃ b rows, blocks[j]? = some b ∧ coerceTo first.vt first.labels s = some rows ∧
+        b = rows.map (relayExtra (unionFields (first :: rest)) fill s) :=
+  concatenateD_spec fill first rest s' h
+
+theorem concatenate_defaults_row (U : List String) (fill : String → List Rat) (s : SS) (r : Row) :
+    (relayExtra U fill s r).sample = r.sample ∧ (relayExtra U fill s r).energy = r.energy ∧ (relayExtra U fill s r).occ = r.occ ∧
+    ∀ f ∈ U, (relayExtra U fill s r).extra[U.idxOf f]? =
+      some (if f ∈ s.fields then r.extra.getD (s.fields.idxOf f) [] else fill f) :=
+  relayExtra_spec U fill s r
+
+/-! ## data() / samples() -/
+
+/-- `data(sorted_by, reverse, index=True)` yields every row exactly once, each with its own record index,
+    in ascending key order (descending with `reverse`) -/
+theorem data_spec (s : SS) (by_ : Option Key) (rev : Bool) :
+    ((s.data by_ rev).map (·.1)).Perm s.rows ∧ (∀ r i, (r, i) ∈ s.data by_ rev → s.rows[i]? = some r) :=
+  ⟨data_rows_perm s by_ rev, fun r i h => data_index s by_ rev r i h⟩
+
+theorem data_sorted_spec (s : SS) (k : Key) :
+    ((gather s.rows (dataOrder s.rows (some k) false)).Pairwise fun a b => a.key k ≤ b.key k) ∧
+    ((gather s.rows (dataOrder s.rows (some k) true)).Pairwise fun a b => b.key k ≤ a.key k) :=
+  data_sorted s k
+
+/-- `samples(n, sorted_by)` are the sample columns of `truncate(n, sorted_by)` -/
+theorem samples_spec (s : SS) (n : Int) (hn : 0 ≤ n) (k : Key) :
+    s.samplesView (some n) (some k) = some (((gather s.rows (argsort (s.rows.map (·.key k)))).take n.toNat).map (·.sample)) := by
+  simp only [SS.samplesView, truncate_spec s.rows k n hn, Option.map_some]
+
 /-! ## deferred results -/
 
 theorem lazy_eq_eager_relabel (x : LSS) (m : List (Label × Label)) (inplace : Bool) :
